@@ -192,3 +192,21 @@ func isRole(p *core.Program, fld *types.Var, role string) bool {
 
 // isRoleAny: like isRole for call sites that have no *core.Program at hand (roles only use type information).
 func isRoleAny(fld *types.Var, role string) bool { return fld != nil && fieldRole(nil, fld) == role }
+
+// fileMethod: a method of the file type of pkg/gengo (the struct with a WriteToFile method) by its
+// exported name, flattened; the type itself is unexported and may be called anything.
+func fileMethod(p *core.Program, name string) *core.Func {
+	for _, f := range p.Funcs() {
+		if f.Decl == nil || f.Decl.Recv == nil || f.Decl.Name.Name != name || core.RelPkg(f.Pkg.PkgPath) != "pkg/gengo" {
+			continue
+		}
+		t := f.Info().TypeOf(f.Decl.Recv.List[0].Type)
+		if pt, ok := t.(*types.Pointer); ok {
+			t = pt.Elem()
+		}
+		if n, ok := t.(*types.Named); ok && ownerRole(p, n.Obj()) == "file" {
+			return flatten(p, f)
+		}
+	}
+	return nil
+}
